@@ -322,6 +322,9 @@ def _facts(expr: ast.AST, truth: bool) -> set[str]:
         def const(e: ast.AST) -> int | None:
             return e.value if isinstance(e, ast.Constant) and isinstance(e.value, int) else None
 
+        # pattern.match(x) is not None  ==  the match succeeded
+        if isinstance(r, ast.Constant) and r.value is None and isinstance(l, ast.Call) and isinstance(op, (ast.Is, ast.IsNot)):
+            return _facts(l, truth if isinstance(op, ast.IsNot) else not truth)
         # x is None / x is not None
         if isinstance(r, ast.Constant) and r.value is None:
             kx = chain_key(l) if isinstance(l, (ast.Name, ast.Attribute)) else None
